@@ -30,7 +30,7 @@
      sam / vcf  async lazy read_record: read_until(LF) of the whole line, then the SYNC field
             scanner over the line as a slice reader (sync: the scanner runs on the source itself) *)
 From Coq Require Import List NArith Arith Bool.
-From NV Require Import Io.Source Io.ReadExact Io.BufReader Io.FastaScan Io.FastqRead Io.Run.
+From NV Require Import Io.Source Io.ReadExact Io.BufReader Io.FastaScan Io.FastqRead Io.HeaderRead Io.Run.
 From NV Require Import Async.ReadExact.
 From NV Require Fasta.Layout Fasta.Fastq.
 Import ListNotations.
@@ -242,3 +242,19 @@ Definition sync_fastq_case (data : list N) : list Fastq.qrec * option Fastq.qerr
 
 Definition sync_fasta_seq_case (data : list N) : sres * list N :=
   fst (run_read_sequence 64 (mkSource data [])).
+
+(* ---- sam / vcf async header::Reader (async/io/reader/header.rs): the adapter's poll_fill_buf /
+   consume are, statement for statement, those of the sync adapter (C12's h_fill_buf); driven by
+   read_until(LF) until it returns 0 (header_reader(), and read_header's read_line loop):
+   (raw header lines, status, bytes consumed) *)
+Definition async_header_case (prefix : N) (cap : nat) (codes : list nat) (data : list N)
+  : list (list N) * ures * nat :=
+  match h_raw_lines aread cap prefix (Datatypes.S (length data)) (ab_fuel (ab_start data codes)) true
+          (ab_start data codes) with
+  | (hl, r, _, st1) => (hl, r, length data - ab_left st1)
+  end.
+
+Definition sync_header_case (prefix : N) (data : list N) : list (list N) * ures * nat :=
+  match run_header prefix 64 (mkSource data []) with
+  | (hl, r, pos, _, _) => (hl, r, pos)
+  end.
